@@ -1807,12 +1807,12 @@ def gen_cases(rng, tier, scale=1.0):
     # Map's read-back statement, or a load and a store inside one statement, can be separated)
     for sname, v0, v1 in (rng.sample(CANONICAL, 4) if quick else CANONICAL):
         fl = pick_fields(rng, sname, 2)
-        cases.append({"stream": "A", "shape": sname, "sseed": 1, "max_pre": 1 if quick else 2, "cap": 120 if quick else 500,
+        cases.append({"stream": "A", "shape": sname, "sseed": 1, "max_pre": 1 if quick else 2, "cap": 120 if quick else 300,
                       "yield": "siteops",
                       "threads": [{"op": "setattr", "field": fl[0], "value": v0},
                                   {"op": "setattr", "field": fl[1], "value": v1}]})
     for sname in (rng.sample(A_SHAPES + A2_SHAPES, 2) if quick else A_SHAPES + A2_SHAPES):
-        add("A", sname, 2, max_pre=1 if quick else 2, cap=120 if quick else 300, **{"yield": "siteops"})
+        add("A", sname, 2, max_pre=1 if quick else 2, cap=120 if quick else 150, **{"yield": "siteops"})
     for sname, v0, v1 in CANONICAL_E:
         fl = pick_fields(rng, sname, 2)
         cases.append({"stream": "E", "shape": sname, "sseed": 1, "max_pre": 2, "cap": 400, "yield": "sitelines",
@@ -2022,7 +2022,7 @@ def gen_cases(rng, tier, scale=1.0):
     # (quick) / two (thorough); oracle only
     ops_shapes = [x for x in A_SHAPES + A2_SHAPES if shape(x).racy or x in ("array_two_fields", "anyof", "immset")]
     for sname in (rng.sample(ops_shapes, 3) if quick else ops_shapes):
-        add("E", sname, 2, max_pre=1 if quick else 2, cap=150 if quick else 300, **{"yield": "siteops"})
+        add("E", sname, 2, max_pre=1 if quick else 2, cap=150 if quick else 200, **{"yield": "siteops"})
     for sname in (rng.sample(COLD_SHAPES, 1) if quick else COLD_SHAPES):
         for ops in ([["deserialize", "deserialize"]] if quick else [["deserialize", "deserialize"], ["serialize", "serialize"]]):
             add_ops("E", sname, ops, max_pre=1, cap=400, **{"yield": "siteops"})
